@@ -168,6 +168,33 @@ func (m *RWMutex) RUnlock() {
 	m.readers--
 }
 
+// TryLock and TryRLock follow sync.RWMutex: they never block, and a pending
+// writer makes TryRLock fail like a held write lock does.
+func (m *RWMutex) TryLock() bool {
+	s := current.Load()
+	if s == nil {
+		return m.real.TryLock()
+	}
+	if m.writer || m.readers > 0 {
+		return false
+	}
+	m.writer = true
+	m.wowner = s.self()
+	return true
+}
+
+func (m *RWMutex) TryRLock() bool {
+	s := current.Load()
+	if s == nil {
+		return m.real.TryRLock()
+	}
+	if m.writer || m.wwaiting > 0 {
+		return false
+	}
+	m.readers++
+	return true
+}
+
 func (m *RWMutex) RLocker() sync.Locker { return (*rlocker)(m) }
 
 type rlocker RWMutex
@@ -311,4 +338,82 @@ func sortKey(v reflect.Value) string {
 		return fmt.Sprintf("%020d", v.Uint())
 	}
 	return ""
+}
+
+// Once is sync.Once under the simulator: a second caller arriving while the
+// function runs parks until it has returned.
+type Once struct {
+	real    sync.Once
+	done    bool
+	running bool
+}
+
+func (o *Once) Do(f func()) {
+	s := current.Load()
+	if s == nil {
+		o.real.Do(f)
+		return
+	}
+	if o.done {
+		return
+	}
+	t := s.self()
+	if o.running {
+		if t == nil {
+			panic("simrt.Once.Do on a goroutine that is not a task")
+		}
+		s.park(t, "Once.Do", "once (another caller is running the function)", func() bool { return o.done }, zeroTime, false)
+		return
+	}
+	o.running = true
+	defer func() { o.done, o.running = true, false }()
+	f()
+}
+
+// Cond is sync.Cond under the simulator (FIFO wake-up order for Signal).
+type Cond struct {
+	L       sync.Locker
+	real    *sync.Cond
+	waiters []*bool
+}
+
+func NewCond(l sync.Locker) *Cond { return &Cond{L: l, real: sync.NewCond(l)} }
+
+func (c *Cond) Wait() {
+	s := current.Load()
+	if s == nil {
+		c.real.Wait()
+		return
+	}
+	t := s.self()
+	if t == nil {
+		panic("simrt.Cond.Wait on a goroutine that is not a task")
+	}
+	woken := false
+	c.waiters = append(c.waiters, &woken)
+	c.L.Unlock()
+	s.park(t, "Cond.Wait", "condition variable", func() bool { return woken }, zeroTime, false)
+	c.L.Lock()
+}
+
+func (c *Cond) Signal() {
+	if current.Load() == nil {
+		c.real.Signal()
+		return
+	}
+	if len(c.waiters) > 0 {
+		*c.waiters[0] = true
+		c.waiters = c.waiters[1:]
+	}
+}
+
+func (c *Cond) Broadcast() {
+	if current.Load() == nil {
+		c.real.Broadcast()
+		return
+	}
+	for _, w := range c.waiters {
+		*w = true
+	}
+	c.waiters = nil
 }
